@@ -209,7 +209,7 @@ fn build_set(base: &Path, sub: &str, thorough: bool) -> Result<Vec<ContainerDesc
             }
             files = vec!["cat.jbk".into()];
         }
-        if sub == "c04" {
+        if sub == "c04" || (sub == "c05" && shape_name != "huge" && shape_name != "many" && shape_name != "wide") {
             // CRC block map from the independent Python decoder
             let verif = std::env::var("VERIF_DIR").unwrap_or_else(|_| "/verif".into());
             let codec = std::env::current_exe().unwrap().with_file_name("codec");
@@ -539,6 +539,19 @@ fn enumerate(sub: &str, thorough: bool, set: &[Loaded]) -> Vec<Case> {
                         for val in [0x00u8, 0xff] {
                             if buf[pos] != val {
                                 v.push(Case { container: ci, file: fi, alt: Alt::Set { pos, val } });
+                            }
+                        }
+                    }
+                    // zeroed ranges that end exactly where a CRC block ends (its 4 CRC bytes and the
+                    // last bytes of its data become zero together) or start where it starts
+                    for &(bs, bl) in &l.blocks[fi] {
+                        let end = bs + bl + 4;
+                        for len in [5usize, 6, 8, 16, 64] {
+                            if end >= len && end <= n {
+                                v.push(Case { container: ci, file: fi, alt: Alt::Fill { start: end - len, len, val: 0 } });
+                            }
+                            if bs + len <= n {
+                                v.push(Case { container: ci, file: fi, alt: Alt::Fill { start: bs, len: len.min(bl + 4), val: 0 } });
                             }
                         }
                     }
@@ -970,6 +983,175 @@ fn jerr_short(e: jubako::Error) -> String {
     jerr(e).to_string().chars().take(200).collect()
 }
 
+// ------------------------------------------------------------------ C05/C06: checked blocks of every size
+
+/// Content packs with N contents for every N in a range: the cluster tail (4 + k(N+1) bytes) and
+/// the content-info table (4N bytes) are CRC-protected blocks whose size grows with N, so every
+/// block size up to a few KiB occurs (1-, 2- and 3-byte offsets). Three alterations per pack inside
+/// those blocks; the pack is re-opened from its file and three contents are read.
+/// `prop` C06: nothing may panic. `prop` C05: a content is an error or what was written (size
+/// always; bytes unless check() fails).
+fn sweep(args: &Args, prop: &'static str) -> ! {
+    use jubako::Pack;
+    use rayon::prelude::*;
+    use jbkmc::packs::read_region;
+    let mut rep = Report::new(
+        "faultmc",
+        prop,
+        "bare content packs with N contents, N = 1..1100 (thorough 1..4400 and 16380..16390), in two variants (1-byte contents; 130-byte contents), uncompressed: cluster tails and content-info tables of every size up to 4.4 KiB (17.6 KiB), offsets of 1, 2 and 3 bytes; per pack: one bit flipped in the middle of the cluster tail, in its first byte, and in the first and last byte of the content-info table; the pack is re-opened from its file and contents 0, N/2 and N-1 are read and check() is called; C06: no panic; C05: every content reads with its written size and bytes, or fails (bytes may differ only when check() is not true); non-trivial = every case",
+    );
+    let t = args.thorough();
+    let mut ns: Vec<usize> = (1..=if t { 4400 } else { 1100 }).collect();
+    if t {
+        ns.extend(16_380..=16_390);
+    }
+    let dir = jbkmc::scratch_dir("sweep");
+    let replay: Option<J> = args.replay.as_ref().map(|p| {
+        let j: J = serde_json::from_str(&std::fs::read_to_string(p).expect("replay")).unwrap();
+        if j.get("case").is_some() { j["case"].clone() } else { j }
+    });
+    let mut jobs: Vec<(usize, usize)> = vec![];
+    for &n in &ns {
+        for len in [1usize, 130] {
+            if len == 130 && n > 1100 && n < 16_000 {
+                continue;
+            }
+            if let Some(r) = &replay {
+                if r["n"] != json!(n) || r["len"] != json!(len) {
+                    continue;
+                }
+            }
+            jobs.push((n, len));
+        }
+    }
+    let content = |i: usize, len: usize| -> Vec<u8> { (0..len).map(|k| (i * 31 + k * 7 + 1) as u8).collect() };
+    struct Out {
+        id: String,
+        outcome: String,
+        violation: Option<(String, String, J)>,
+    }
+    let results: Vec<Vec<Out>> = jobs
+        .par_iter()
+        .map(|&(n, len)| {
+            let mut outs = vec![];
+            let path = dir.path().join(format!("s{n}_{len}.jbkc"));
+            let up = camino::Utf8PathBuf::from_path_buf(path.clone()).unwrap();
+            let built = jbkmc::catch(|| -> Result<(), String> {
+                let mut c = jubako::creator::ContentPackCreator::new(&up, jubako::PackId::from(1), jubako::VendorId::from(jbkmc::packs::VENDOR), Default::default(), jubako::creator::Compression::None).map_err(|e| e.to_string())?;
+                for i in 0..n {
+                    c.add_content(Box::new(std::io::Cursor::new(content(i, len))), jubako::creator::CompHint::No).map_err(|e| e.to_string())?;
+                }
+                c.finalize().map_err(|e| e.to_string())?;
+                Ok(())
+            });
+            if !matches!(built, Ok(Ok(()))) {
+                outs.push(Out { id: format!("{n}/{len}"), outcome: "machinery".into(), violation: Some(("MACHINERY".into(), format!("cannot create the pack n={n} len={len}: {built:?}"), json!({}))) });
+                return outs;
+            }
+            let pristine = std::fs::read(&path).unwrap();
+            let map = match indep::content_pack(&pristine, 0) {
+                Ok(m) => m,
+                Err(e) => {
+                    outs.push(Out { id: format!("{n}/{len}"), outcome: "machinery".into(), violation: Some(("MACHINERY".into(), format!("independent decoder rejects the pristine pack n={n}: {e}"), json!({}))) });
+                    return outs;
+                }
+            };
+            let info_pos = u64::from_le_bytes(pristine[64..72].try_into().unwrap()) as usize;
+            let cl = &map.clusters[0];
+            let blobs = cl.bounds.len() - 1;
+            let tail_size = 4 + 2 * cl.offset_size + blobs.saturating_sub(1) * cl.offset_size;
+            let alts: Vec<(&str, usize, u8)> = vec![
+                ("tail-mid", cl.tail_offset + tail_size / 2, 0x10),
+                ("tail-first", cl.tail_offset, 0x01),
+                ("info-first", info_pos, 0x01),
+                ("info-last", info_pos + 4 * n - 1, 0x80),
+            ];
+            let picks: Vec<usize> = {
+                let mut v = vec![0, n / 2, n - 1];
+                v.dedup();
+                v
+            };
+            for (name, at, mask) in alts {
+                let case = json!({"engine":"faultmc","sub": if prop == "C06" { "c06sweep" } else { "c05sweep" },"n":n,"len":len,"alt":name,"at":at});
+                if let Some(r) = &replay {
+                    if r["alt"] != json!(name) {
+                        continue;
+                    }
+                }
+                let mut bytes = pristine.clone();
+                bytes[at] ^= mask;
+                std::fs::write(&path, &bytes).unwrap();
+                let got = jbkmc::catch(|| -> Vec<Result<Vec<u8>, String>> {
+                    let pack = match jubako::FileSource::open(&path).map_err(|e| e.to_string()).and_then(|f| jubako::reader::ContentPack::new(jubako::Reader::from(f)).map_err(|e| jerr(e).to_string())) {
+                        Ok(p) => p,
+                        Err(e) => return vec![Err(e)],
+                    };
+                    let mut v: Vec<Result<Vec<u8>, String>> = picks
+                        .iter()
+                        .map(|&i| match pack.get_content(jubako::ContentIdx::from(i as u32)) {
+                            Ok(Some(r)) => read_region(&r),
+                            Ok(None) => Err("no such content".into()),
+                            Err(e) => Err(jerr(e).to_string()),
+                        })
+                        .collect();
+                    v.push(match pack.check() {
+                        Ok(true) => Ok(vec![1]),
+                        Ok(false) => Ok(vec![0]),
+                        Err(e) => Err(jerr(e).to_string()),
+                    });
+                    v
+                });
+                let id = case.to_string();
+                match got {
+                    Err(p) => outs.push(Out { id, outcome: "panic".into(), violation: if prop == "C06" { Some((format!("C06 panic {}", jbkmc::panic_site(&p)), format!("n={n} len={len} {name}: {p}"), case)) } else { None } }),
+                    Ok(v) => {
+                        let check_true = matches!(v.last(), Some(Ok(c)) if c == &vec![1u8]);
+                        let mut bad = None;
+                        if v.len() == picks.len() + 1 {
+                            for (k, &i) in picks.iter().enumerate() {
+                                if let Ok(b) = &v[k] {
+                                    let want = content(i, len);
+                                    if b.len() != want.len() {
+                                        bad = Some(format!("content {i} reads {} bytes, {} were written", b.len(), want.len()));
+                                    } else if b != &want && check_true {
+                                        bad = Some(format!("content {i} reads other bytes and check() is true"));
+                                    }
+                                }
+                            }
+                        }
+                        let all_err = v.iter().take(picks.len()).all(|r| r.is_err());
+                        let outcome = if bad.is_some() { "silently different" } else if all_err { "error" } else { "as written or error" };
+                        outs.push(Out {
+                            id,
+                            outcome: outcome.into(),
+                            violation: match bad {
+                                Some(w) if prop == "C05" => Some(("C05 silently different: content of a pack with a damaged cluster tail / content-info table".into(), format!("n={n} len={len} {name} (byte {at}): {w}"), case)),
+                                _ => None,
+                            },
+                        });
+                    }
+                }
+            }
+            let _ = std::fs::remove_file(&path);
+            outs
+        })
+        .collect();
+    for o in results.into_iter().flatten() {
+        rep.case(Some(&o.id), &o.outcome);
+        if rep.samples.len() < 3 && o.outcome != "machinery" {
+            rep.sample(serde_json::from_str(&o.id).unwrap_or(json!(o.id)));
+        }
+        if let Some((k, w, c)) = o.violation {
+            if k.as_str() == "MACHINERY" {
+                rep.machinery_errors.push(w);
+            } else {
+                rep.violation(&k, &w, c);
+            }
+        }
+    }
+    rep.finish(args)
+}
+
 // ------------------------------------------------------------------ parent
 
 fn path_class(p: &str) -> String {
@@ -996,9 +1178,15 @@ fn main() {
     if args.sub == "c05giant" {
         giant(&args);
     }
+    if args.sub == "c05sweep" {
+        sweep(&args, "C05");
+    }
+    if args.sub == "c06sweep" {
+        sweep(&args, "C06");
+    }
     let (prop, rule) = match args.sub.as_str() {
         "c04" => ("C04", "every byte inside a pack's checked range or check block (classified by the independent decoder) x xor masks {01,80,ff}, every aligned 4/16-byte run zeroed, every covered byte inside a CRC block flipped WITH the block CRC recomputed (block map from the independent Python decoder: only the blake3 can notice), every 13th (thorough: 3rd) covered byte of the file-backed / mmapped packs altered in place AFTER the handles were opened and checked once, (thorough) pairs of covered positions on the small containers; oracle: Pack::check of that pack, ContainerPack::check of the file and Container::check each answer false or an error; non-trivial = the altered byte is covered by a checksum; distinct by (container,file,alteration)"),
-        "c05" => ("C05", "every byte of every file x {xor 01, xor 80, xor ff, set 00, set ff}, zero/ff-filled ranges of length {4,64} (thorough {2,4,8,64} at every start, plus pairs inside 64-byte blocks); oracle: node-by-node comparison of the full logical dump with the pristine dump (error nodes accepted; content hashes may differ only when check() is not true)"),
+        "c05" => ("C05", "every byte of every file x {xor 01, xor 80, xor ff, set 00, set ff}, zero/ff-filled ranges of length {4,64} (thorough {2,4,8,64} at every start, plus pairs inside 64-byte blocks), zeroed ranges of 5..64 bytes ending exactly at the end of every CRC block (data tail and CRC zeroed together) and starting at its start; oracle: node-by-node comparison of the full logical dump with the pristine dump (error nodes accepted; content hashes may differ only when check() is not true)"),
         "c06" => ("C06", "every truncation length, every position x {01,80,ff}, zeroed ranges {4,64,4096}, appended garbage {1,63,64,65,4096} x 4 kinds, 12 non-jubako inputs, files cut at the front, companion files removed; each case runs the whole reader (open, dump of every entry/value/content, three checks) in a worker process; oracle: no panic, no abort/signal, no hang"),
         other => {
             eprintln!("unknown subcommand {other}");
